@@ -319,6 +319,15 @@ pub fn run_built(sc: Scenario, built: Result<Tracer, String>, tape: Tape, opts: 
                     rs.push(rec);
                     if sc.clear_after_round == Some(idx) {
                         tracer.clear();
+                        // the table can be asked at once, before any round has been applied
+                        // to the fresh state (the TUI draws its next frame from it)
+                        let ok = std::panic::catch_unwind(std::panic::AssertUnwindSafe(|| {
+                            let s = tracer.snapshot();
+                            let d = State::default_flow_id();
+                            let _ = (s.hops().len(), s.target_hop(d).ttl(), s.round_count(d), s.flows().len(), s.is_target(s.target_hop(d), d));
+                        }))
+                        .is_ok();
+                        crate::world::with_world(|w| w.counters.add(if ok { "reach.query_after_clear" } else { "fail.query_after_clear_panicked" }, 1));
                     }
                 })
             }));
